@@ -162,9 +162,28 @@ ADDENDA2 = {
     'C19': ('; relational abstract interpretation of len(batch) against batch_size over {<,==,>}', ' Also: the size bound is decided for any loop form (C19-2); the end marker is recognised in both forms, by value (C19-1).'),
     'C20': ('; WHO may put on the log queue; MUSTPASS of the flag reader', ' Also: the log reader stops only when the child-ended flag had been read true before an empty look at the queue, and the flag is set only after the child was observed dead (C20-1); the forwarding handler is the standard QueueHandler (C20-2); nothing needed at the end is created at the end (C20-5); the parent never puts on the log queue while the child may be alive (C20-6).'),
 }
+# rules added in the fresh round and by the systematic cross-listing pass (DESIGN.md 11.3)
+ADDENDA3 = {
+    'C02': ' Also: the onboarding thread survives an input that cannot be pickled (C04-11) and per-request user code is contained (C04-1), both decided under C02-8.',
+    'C03': ' Also: constructors read nothing from their input (C03-1); head tests its limit before the next pull (C03-6); class collections reach isinstance as tuples (C03-10); terminal item, vocabulary, stop flag and join safety of the fifo pairs (C03-9).',
+    'C04': ' Also: an outcome is taken apart only after the exception test (C04-10); an input that cannot be pickled fails alone (C04-11); the gather loop cannot be ended by one request (C04-12).',
+    'C05': ' Also: the consumer leaves its loop only on the end marker (C05-10).',
+    'C06': ' Also: a guard on a local copy of the ledger size is read under the lock and again after every wait (C06-2); the gather thread stays alive (C06-14).',
+    'C07': ' Also: the expiry handler ends in a raise on every path (C07-3).',
+    'C09': ' Also: per-request user code in the collector is contained (C09-10).',
+    'C10': ' Also: links of element boxes are write-once (C10-9).',
+    'C11': ' Also: the rollback walks a prefix of the members (C11-1); join() of a worker that failed to initialise raises, not hangs (C11-9); an abandoned Server.stream lets go (C11-10).',
+    'C12': ' Also: the outcome is tested with `is not None`, never by truthiness (C12-4).',
+    'C13': ' Also: the finaliser is registered only after the increment has succeeded (C13-1).',
+    'C14': ' Also: the reference-count obligations of C13 (C14-12); the exception is wrapped with a traceback formatted at this site (C14-13).',
+    'C15': ' Also: no frame limit when the traceback is formatted (C15-3).',
+    'C17': ' Also: the remaining time is recomputed in every pass (C17-3); put_end stays responsive while it waits for the next round (C17-8).',
+    'C18': ' Also: the request queue between the tasks of a connection is created per connection (C18-14).',
+    'C20': ' Also: the object finaliser that can end the log reader carries no exit priority (C20-1).',
+}
 COMMON_NOTE = COMMON_NOTE + (
     ' Before the rules run, the syntax tree (never the files) is normalised: while/next loops are read as for loops, functions the rules look up by name that were renamed consistently are mapped back through body fingerprints (anchors.json), '
-    'calls of helpers that do not exist in the confirmed tree are read in place when that is exact, assignment expressions are desugared, annotated assignments and import aliases are read as their plain forms; every name mapping is printed and recorded in the evidence notes.'
+    'calls of helpers that do not exist in the confirmed tree are read in place when that is exact, assignment expressions are desugared, annotated assignments, import aliases and written-out increments are read as their plain forms, and locals / temporaries / module constants that the confirmed tree does not have are read as what they stand for; every name mapping is printed and recorded in the evidence notes.'
 )
 
 
@@ -180,6 +199,8 @@ def main():
                 tech, text = tech + ADDENDA[pid][0], text + ADDENDA[pid][1]
             if pid in ADDENDA2:
                 tech, text = tech + ADDENDA2[pid][0], text + ADDENDA2[pid][1]
+            if pid in ADDENDA3:
+                text = text + ADDENDA3[pid]
             checks.append(
                 {
                     'property_id': pid,
